@@ -61,37 +61,37 @@ example (db : Db) (c₁ c₂ : List Bool) (t : Node) (h : wf db t = true) :
 def C02_ir_statement : Prop :=
   ∀ (db : Db) (t : Node), wf db t = true → ∀ b₁ b₂ : Bool, SetEq (answer db (pipe b₁ t)) (answer db (pipe b₂ t))
 
-/-- refuted: `Filter(col2 > 5, Join(r1, r2 on Y))` answers `(1,7,1)` with the switch off and `(2,3,9)` with it on. -/
+/-- refuted: under a `Distinct` root Boolean specialisation wraps the join below the `Aggregate` in
+    `Distinct`, `count` is 2 with the switch off and 1 with it on. -/
 theorem C02_ir_refuted : ¬ C02_ir_statement := by
   intro h
-  have := h C05.db1 (.filter C05.j12 (.cc .gt 2 5)) (by decide) false true [.i64 2, .i64 3, .i64 9]
+  have := h C05.dbBS C05.tBS (by decide) false true [.i64 3, .i64 2]
   revert this
   decide
 
-theorem pipe_false (db : Db) (t : Node) (h : wf db t = true) (hs : optPushUnsafe t = false) :
+theorem pipe_false (db : Db) (t : Node) (h : wf db t = true) :
     answer db (pipe false t) = answer db t := by
-  simpa [pipe] using C05.C05_opt_partial_answer db t h hs
+  simpa [pipe] using C05.C05_opt_answer db t h
 
 theorem pipe_true (db : Db) (t : Node) (hb : wf db (specialize t).1 = true)
-    (hs : optPushUnsafe (specialize t).1 = false) (ha : analyze t ≠ .boolean ∨ aggFree t = true) :
+    (ha : analyze t ≠ .boolean ∨ aggFree t = true) :
     SetEq (answer db (pipe true t)) (answer db t) := by
   have h1 : answer db (pipe true t) = answer db (specialize t).1 := by
-    simpa [pipe] using C05.C05_opt_partial_answer db _ hb hs
+    simpa [pipe] using C05.C05_opt_answer db _ hb
   rw [h1]
   rcases ha with ha | ha
   · intro x; simp only [answer, C05.C05_bs_partial_counting db t ha]
   · exact C05.C05_bs_partial_aggfree db t ha
 
-/-- strongest restriction proved for the modelled switches: outside the two excluded input classes of
-    C05 (`optPushUnsafe` on the plan given to the optimizer; `Aggregate` under a Boolean annotation) the
+/-- strongest restriction proved for the modelled switches: outside the excluded input class of
+    C05 (`Aggregate` under a Boolean annotation) the
     answer does not depend on the Boolean-specialisation switch. -/
 theorem C02_ir_partial (db : Db) (t : Node) (h : wf db t = true) (hb : wf db (specialize t).1 = true)
-    (hs₀ : optPushUnsafe t = false) (hs₁ : optPushUnsafe (specialize t).1 = false)
     (ha : analyze t ≠ .boolean ∨ aggFree t = true) (b₁ b₂ : Bool) :
     SetEq (answer db (pipe b₁ t)) (answer db (pipe b₂ t)) := by
   have f : SetEq (answer db (pipe false t)) (answer db t) := by
-    rw [pipe_false db t h hs₀]; exact fun _ => Iff.rfl
-  have g := pipe_true db t hb hs₁ ha
+    rw [pipe_false db t h]; exact fun _ => Iff.rfl
+  have g := pipe_true db t hb ha
   cases b₁ <;> cases b₂ <;> intro x
   · exact Iff.rfl
   · exact (f x).trans (g x).symm
@@ -100,15 +100,13 @@ theorem C02_ir_partial (db : Db) (t : Node) (h : wf db t = true) (hb : wf db (sp
 
 -- `q(Z,X) <- r1(X,Y), r2(Y,Z), X > 1`: hypotheses hold, the two settings produce different plans, same answer
 example : let t := Node.map (.filter C05.j12 (.cc .gt 0 1)) [2, 0] ["Z", "X"]
-    wf C05.db1 t = true ∧ wf C05.db1 (specialize t).1 = true ∧ optPushUnsafe t = false ∧
-    optPushUnsafe (specialize t).1 = false ∧ aggFree t = true ∧ pipe false t ≠ pipe true t ∧
+    wf C05.db1 t = true ∧ wf C05.db1 (specialize t).1 = true ∧ aggFree t = true ∧ pipe false t ≠ pipe true t ∧
     answer C05.db1 (pipe true t) = [[.i64 9, .i64 2]] := by decide
 
 def C02_statement : Prop := C02_ir_statement
 theorem C02_refuted : ¬ C02_statement := C02_ir_refuted
 theorem C02_partial (db : Db) (t : Node) (h : wf db t = true) (hb : wf db (specialize t).1 = true)
-    (hs₀ : optPushUnsafe t = false) (hs₁ : optPushUnsafe (specialize t).1 = false)
     (ha : analyze t ≠ .boolean ∨ aggFree t = true) (b₁ b₂ : Bool) :
-    SetEq (answer db (pipe b₁ t)) (answer db (pipe b₂ t)) := C02_ir_partial db t h hb hs₀ hs₁ ha b₁ b₂
+    SetEq (answer db (pipe b₁ t)) (answer db (pipe b₂ t)) := C02_ir_partial db t h hb ha b₁ b₂
 
 end ILV.Props.C02
